@@ -4,8 +4,7 @@
 EXTENDS ScanSelectDomain, TLC, Json, IOUtils
 
 Thorough == IOEnv.VF_TIER = "thorough"
-W == SelWorlds(Thorough)
-SelCases == SetToSeq(W)
+SelCases == SelSeq(Thorough)
 FnCases == SetToSeq({[t |-> "fn", fn |-> n] : n \in FnNames})
 PmSeq == SetToSeq(PmCases)
 All == SelCases \o FnCases \o PmSeq
@@ -15,8 +14,6 @@ Batches == [b \in 1..((Len(All) + B - 1) \div B) |->
 
 (* ---- lemmas about P ---- *)
 (* the lemmas of ScanSelect (LemmasOn) are checked on every world by ScanSelectJudge, in parallel with the records *)
-(* the keys of the worlds are pairwise distinct (the judge compares sets of keys) *)
-ASSUME Cardinality({SelKey(w) : w \in W}) = Cardinality(W)
 
 (* ---- P is not vacuous: concrete instances with the outcome written out ---- *)
 V(NS) == World("L", 8, 1, BaseSl, Ents(Files(x_vaillant, NS, 0)))
@@ -45,8 +42,8 @@ ASSUME DefaultCircuit(NameOf(x_08, <<x_bai, x_hc, x_3>>)) = x_hc \o <<DOT>> \o x
 ASSUME ParseMsg(x_ff08070400_2f0ab5424149303001020304, TRUE) =
          [kind |-> "ok", m |-> <<255, 8, 7, 4, 0>>, s |-> <<10, 181, 66, 65, 73, 48, 48, 1, 2, 3, 4>>]
 (* P decides most of the domain: worlds with exactly one admissible outcome *)
-Decided == {w \in W : LET e == Eval(w) IN (Cardinality(e.adm) = 1 /\ ~e.none) \/ (e.adm = {} /\ e.none)}
-ASSUME Cardinality(Decided) * 10 >= Cardinality(W) * 6
+Decided == {k \in 1..Len(SelCases) : LET e == Eval(SelCases[k]) IN (Cardinality(e.adm) = 1 /\ ~e.none) \/ (e.adm = {} /\ e.none)}
+ASSUME Cardinality(Decided) * 10 >= Len(SelCases) * 6
 PmDecided == {c \in PmCases : ParseMsg(c.arg, c.oms = 1).kind # "open"}
 ASSUME Cardinality(PmDecided) * 10 >= Cardinality(PmCases) * 5
 
